@@ -17,6 +17,7 @@ fn main() {
         Some("c10-resolve") => more::c10_resolve(),
         Some("c11-contains") => more::c11_contains(),
         Some("c12-primex") => more::c12_primex(args.get(2).and_then(|s| s.parse().ok()).unwrap_or(200), args.get(3).and_then(|s| s.parse().ok())),
+        Some("c12-structure") => more::c12_structure(args.get(2).and_then(|s| s.parse().ok()).unwrap_or(40)),
         Some("c13-primnames") => more::c13_primnames(),
         Some("c18-upcast") => more::c18_upcast(),
         Some("c10-mixed") => more::c10_mixed(),
